@@ -5,34 +5,43 @@
 //!        cfg(domain_verif) hook) -- observation after every operation = the
 //!        stored entry list (from `Debug`) and `get` at a set of probe versions,
 //!        incl. version numbers around the 2^32 wrap and 2^31 apart.
-//!    (b) `zt ...`: API-call traces (ZoneBuilder content; reader acquire / query /
-//!        walk / release; writer write().await / open / update_child+update_rrset /
-//!        remove_rrset / remove_all / make_cname / make_regular / commit / drop) on
-//!        a zone with an apex, the wildcard label and a few direct children --
-//!        observation = the answers of the trace's queries and walks.
+//!    (b) `zt ...`: API-call traces (ZoneBuilder content incl. zone cuts and CNAMEs;
+//!        reader acquire / query / walk / release; writer write().await (also
+//!        queued behind a live writer) / open / update_child* + update_rrset /
+//!        remove_rrset / remove_all / make_cname / make_zone_cut / make_regular /
+//!        commit / drop; operations through a node handle kept beyond its
+//!        session) over names up to three labels below the apex incl. wildcards
+//!        at every level -- observation = the answers of the trace's queries
+//!        (incl. DS, ANY, referrals) and walks.
 //! Oracle (independent of the model): every held reader keeps observing the
 //! snapshot (all (name,type) answers + sorted walk) it saw when it was acquired,
 //! after every writer step; a fresh reader sees exactly the committed content
 //! (never uncommitted data, all of a commit's data at once, the old content after
-//! an abort); walk = the committed record set; a second `write().await` stays
-//! pending while a writer exists and is granted afterwards.  Traces over two-level
-//! names take part in the snapshot/abort checks only.
+//! an abort); walk = the committed record set (zone cuts end the descent); an ANY
+//! answer is an RRset of the reader's version; a second `write().await` stays
+//! pending while a writer exists and is granted afterwards.
 //! Supporting only (thorough tier): a real-thread stress run, 8 readers + 1 writer.
 use bytes::Bytes;
 use domain::base::iana::{Class, Rcode, Rtype};
 use domain::base::name::{Label, Name, ParsedName, ToLabelIter, ToName};
 use domain::base::net::{Ipv4Addr, Ipv6Addr};
 use domain::base::{Message, MessageBuilder, Serial, Ttl};
-use domain::rdata::{Aaaa, Cname, Soa, Txt, ZoneRecordData, A};
+use domain::base::iana::{DigestAlgorithm, SecurityAlgorithm};
+use domain::base::Record;
+use domain::rdata::{Aaaa, Cname, Ds, Ns, Soa, Txt, ZoneRecordData, A};
+use domain::zonetree::types::ZoneCut;
 use domain::zonetree::verif_hooks::{Version, Versioned};
 use domain::zonetree::{ReadableZone, Rrset, SharedRr, SharedRrset, WritableZone, WritableZoneNode, Zone, ZoneBuilder};
 use dv_harness::*;
-use std::collections::{BTreeMap, BTreeSet};
+use std::collections::BTreeMap;
 use std::sync::{Arc, Mutex};
 use std::time::Duration;
 
 const APEX: &str = "zone.test.";
 const T_A: u16 = 1;
+const T_NS: u16 = 2;
+const T_DS: u16 = 43;
+const T_ANY: u16 = 255;
 const T_CNAME: u16 = 5;
 const T_SOA: u16 = 6;
 const T_TXT: u16 = 16;
@@ -168,23 +177,22 @@ fn cell_version(r: &mut Rng, base: u32) -> u32 {
 
 // ---------------------------------------------------------------- names, rrsets
 
-/// Labels from the apex downwards; [] is the apex.
+/// Labels from the apex downwards; [] is the apex.  Label k is "n<k>", label 1 is "*".
 #[derive(Clone, PartialEq, Eq, Hash, PartialOrd, Ord, Debug)]
-struct Nm(Vec<String>);
+struct Nm(Vec<u32>);
 impl Nm {
-    fn flat(id: u32) -> Nm { match id { 0 => Nm(vec![]), 1 => Nm(vec!["*".into()]), k => Nm(vec![format!("n{}", k)]) } }
-    fn flat_id(&self) -> Option<u32> {
-        match self.0.len() { 0 => Some(0), 1 => if self.0[0] == "*" { Some(1) } else { self.0[0].strip_prefix('n').and_then(|x| x.parse().ok()) }, _ => None }
-    }
+    fn flat(id: u32) -> Nm { if id == 0 { Nm(vec![]) } else { Nm(vec![id]) } }
+    fn label(k: u32) -> String { if k == 1 { "*".into() } else { format!("n{}", k) } }
     fn abs(&self) -> Name<Bytes> {
         let mut s = String::new();
-        for l in self.0.iter().rev() { s.push_str(l); s.push('.'); }
+        for l in self.0.iter().rev() { s.push_str(&Nm::label(*l)); s.push('.'); }
         s.push_str(APEX);
         Name::bytes_from_str(&s).unwrap()
     }
-    fn show(&self) -> String { if self.0.is_empty() { "@".into() } else { let mut v = self.0.clone(); v.reverse(); v.join(".") } }
-    fn prefixes(&self) -> Vec<Nm> { (1..=self.0.len()).map(|k| Nm(self.0[..k].to_vec())).collect() }
+    /// the word used in case lines and walk output: "0" or label numbers joined by '.'
+    fn word(&self) -> String { if self.0.is_empty() { "0".into() } else { self.0.iter().map(|l| l.to_string()).collect::<Vec<_>>().join(".") } }
     fn is_prefix_of(&self, o: &Nm) -> bool { o.0.len() >= self.0.len() && o.0[..self.0.len()] == self.0[..] }
+    fn proper_prefixes(&self) -> Vec<Nm> { (1..self.0.len()).map(|k| Nm(self.0[..k].to_vec())).collect() }
 }
 
 fn apex() -> Name<Bytes> { Name::bytes_from_str(APEX).unwrap() }
@@ -194,6 +202,8 @@ fn mk_data(t: u16, id: u32) -> ZoneRecordData<Bytes, Name<Bytes>> {
         T_A => ZoneRecordData::A(A::new(Ipv4Addr::from(id))),
         T_AAAA => ZoneRecordData::Aaaa(Aaaa::new(Ipv6Addr::from(id as u128))),
         T_SOA => ZoneRecordData::Soa(Soa::new(apex(), apex(), Serial(id), Ttl::from_secs(1), Ttl::from_secs(2), Ttl::from_secs(3), Ttl::from_secs(4))),
+        T_NS => ZoneRecordData::Ns(Ns::new(Name::bytes_from_str(&format!("s{}.{}", id, APEX)).unwrap())),
+        T_DS => ZoneRecordData::Ds(Ds::new(id as u16, SecurityAlgorithm::RSASHA256, DigestAlgorithm::SHA256, Bytes::from(vec![1u8, 2, 3, 4])).unwrap()),
         _ => ZoneRecordData::Txt(Txt::<Bytes>::build_from_slice(format!("t{}", id).as_bytes()).unwrap()),
     }
 }
@@ -205,28 +215,42 @@ fn mk_rrset(t: u16, id: u32) -> SharedRrset {
 }
 fn cname_target(id: u32) -> Name<Bytes> { Name::bytes_from_str(&format!("c{}.{}", id, APEX)).unwrap() }
 fn mk_cname(id: u32) -> SharedRr { SharedRr::new(Ttl::from_secs(3600), ZoneRecordData::Cname(Cname::new(cname_target(id)))) }
+/// a zone cut at `n`: NS RRset `ns`, optional DS RRset, optional glue (an A record owned by the cut name)
+fn mk_cut(n: &Nm, ns: u32, ds: Option<u32>, glue: Option<u32>) -> ZoneCut {
+    ZoneCut {
+        name: n.abs(),
+        ns: mk_rrset(T_NS, ns),
+        ds: ds.map(|d| mk_rrset(T_DS, d)),
+        glue: glue.iter().map(|g| Record::new(n.abs(), Class::IN, Ttl::from_secs(3600), mk_data(T_A, *g))).collect(),
+    }
+}
 
+fn first_label_num<N: ToName>(n: &N) -> u32 {
+    let n = n.to_bytes();
+    let l = n.iter_labels().next().unwrap();
+    String::from_utf8_lossy(l.as_slice())[1..].parse().unwrap_or(999_998)
+}
 fn data_id<N: ToName>(d: &ZoneRecordData<Bytes, N>) -> u32 {
     match d {
         ZoneRecordData::A(a) => u32::from(a.addr()),
         ZoneRecordData::Aaaa(a) => u128::from(a.addr()) as u32,
         ZoneRecordData::Soa(s) => s.serial().0,
         ZoneRecordData::Txt(t) => { let v: Vec<u8> = t.text::<Vec<u8>>(); String::from_utf8_lossy(&v)[1..].parse().unwrap_or(999_999) }
-        ZoneRecordData::Cname(c) => {
-            let n = c.cname().to_bytes();
-            let l = n.iter_labels().next().unwrap();
-            String::from_utf8_lossy(l.as_slice())[1..].parse().unwrap_or(999_998)
-        }
+        ZoneRecordData::Cname(c) => first_label_num(c.cname()),
+        ZoneRecordData::Ns(n) => first_label_num(n.nsdname()),
+        ZoneRecordData::Ds(d) => d.key_tag() as u32,
         _ => 999_997,
     }
 }
 
 /// canonical answer word, the same alphabet the model driver prints:
-/// X(soa) NXDOMAIN, N(soa) NODATA, D<id> data, C<id> CNAME
-fn observe(rd: &dyn ReadableZone, name: &Nm, t: u16) -> String {
+/// X(soa) NXDOMAIN, N(soa) NODATA, D<id> data, Y some RRset (ANY), C<id> CNAME,
+/// R<ns>(ds)(glue) referral.  The second component is the (type, id) of the RRset an
+/// ANY query returned.
+fn observe_full(rd: &dyn ReadableZone, name: &Nm, t: u16) -> (String, Option<(u16, u32)>) {
     let qname = name.abs();
     let rt = Rtype::from_int(t);
-    let ans = match rd.query(qname.clone(), rt) { Ok(a) => a, Err(_) => return "OutOfZone".into() };
+    let ans = match rd.query(qname.clone(), rt) { Ok(a) => a, Err(_) => return ("OutOfZone".into(), None) };
     let mut qb = MessageBuilder::new_vec().question();
     qb.push((qname, rt)).unwrap();
     let qmsg: Message<Vec<u8>> = qb.into();
@@ -236,28 +260,37 @@ fn observe(rd: &dyn ReadableZone, name: &Nm, t: u16) -> String {
         let r = r.unwrap();
         an.push((r.rtype().to_int(), data_id(r.data())));
     }
-    let mut soa: Option<u32> = None;
-    let mut other_auth = 0;
+    let opt = |x: Option<u32>| x.map_or("-".to_string(), |x| x.to_string());
+    let (mut soa, mut ns, mut ds, mut other_auth) = (None, None, None, 0);
     for r in msg.authority().unwrap().limit_to::<ZoneRecordData<_, ParsedName<_>>>() {
         let r = r.unwrap();
-        if r.rtype() == Rtype::SOA { soa = Some(data_id(r.data())); } else { other_auth += 1; }
+        match r.rtype() { Rtype::SOA => soa = Some(data_id(r.data())), Rtype::NS => ns = Some(data_id(r.data())), Rtype::DS => ds = Some(data_id(r.data())), _ => other_auth += 1 }
     }
-    let soa_s = soa.map_or("-".to_string(), |x| x.to_string());
+    let mut glue = None;
+    let mut other_add = 0;
+    for r in msg.additional().unwrap().limit_to::<ZoneRecordData<_, ParsedName<_>>>() {
+        let r = r.unwrap();
+        if r.rtype() == Rtype::A && glue.is_none() { glue = Some(data_id(r.data())); } else { other_add += 1; }
+    }
     let rc = ans.rcode();
-    if other_auth > 0 { return format!("?auth{}", other_auth); }
-    if rc == Rcode::NXDOMAIN && an.is_empty() { return format!("X({})", soa_s); }
-    if rc != Rcode::NOERROR { return format!("?rcode{}", rc.to_int()); }
-    if an.is_empty() { return format!("N({})", soa_s); }
-    if an.len() == 1 && an[0].0 == T_CNAME && t != T_CNAME { return format!("C{}", an[0].1); }
-    if an.len() == 1 && an[0].0 == T_CNAME {
-        // a CNAME query at a CNAME node answers with the special CNAME as well
-        return format!("C{}", an[0].1);
+    if other_auth > 0 || other_add > 0 { return (format!("?sections{}/{}", other_auth, other_add), None); }
+    if let Some(ns) = ns {
+        if rc == Rcode::NOERROR && an.is_empty() && soa.is_none() { return (format!("R{}({})({})", ns, opt(ds), opt(glue)), None); }
+        return ("?referral".into(), None);
     }
-    if an.len() == 1 && an[0].0 == t { return format!("D{}", an[0].1); }
-    format!("?answer{:?}", an)
+    if ds.is_some() || glue.is_some() { return ("?stray".into(), None); }
+    if rc == Rcode::NXDOMAIN && an.is_empty() { return (format!("X({})", opt(soa)), None); }
+    if rc != Rcode::NOERROR { return (format!("?rcode{}", rc.to_int()), None); }
+    if an.is_empty() { return (format!("N({})", opt(soa)), None); }
+    if soa.is_some() { return ("?soa_with_answer".into(), None); }
+    if an.len() == 1 && an[0].0 == T_CNAME { return (format!("C{}", an[0].1), None); }
+    if an.len() == 1 && t == T_ANY { return ("Y".into(), Some(an[0])); }
+    if an.len() == 1 && an[0].0 == t { return (format!("D{}", an[0].1), None); }
+    (format!("?answer{:?}", an), None)
 }
+fn observe(rd: &dyn ReadableZone, name: &Nm, t: u16) -> String { observe_full(rd, name, t).0 }
 
-/// sorted (owner, type, id) triples of a walk; owners as shown by Nm::show
+/// sorted (owner word, type, id) triples of a walk
 fn walk_of(rd: &dyn ReadableZone) -> Vec<(String, u16, u32)> {
     let acc: Arc<Mutex<Vec<(String, u16, u32)>>> = Arc::new(Mutex::new(vec![]));
     let acc2 = acc.clone();
@@ -271,11 +304,18 @@ fn walk_of(rd: &dyn ReadableZone) -> Vec<(String, u16, u32)> {
     v.sort();
     v
 }
+/// owner name -> the word of its label path (apex first)
 fn rel_of(owner: &Name<Bytes>, apex_n: &Name<Bytes>) -> String {
     let n = owner.label_count() - apex_n.label_count();
-    if n == 0 { return "@".into(); }
-    owner.iter_labels().take(n).map(|l| String::from_utf8_lossy(l.as_slice()).to_string()).collect::<Vec<_>>().join(".")
+    if n == 0 { return "0".into(); }
+    let mut ls: Vec<String> = owner.iter_labels().take(n).map(|l| {
+        let s = String::from_utf8_lossy(l.as_slice()).to_string();
+        if s == "*" { "1".to_string() } else { s.strip_prefix('n').unwrap_or("?").to_string() }
+    }).collect();
+    ls.reverse();
+    ls.join(".")
 }
+fn show_walk(w: &[(String, u16, u32)]) -> String { format!("W[{}]", w.iter().map(|(o, t, id)| format!("{}/{}/{}", o, t, id)).collect::<Vec<_>>().join(",")) }
 
 // ---------------------------------------------------------------- traces
 
@@ -283,57 +323,76 @@ fn rel_of(owner: &Name<Bytes>, apex_n: &Name<Bytes>) -> String {
 enum Ev {
     Acquire(u32), Query(u32, Nm, u16), Walk(u32), Release(u32),
     WAcquire, WQueue, WTake, WOpen, Update(Nm, u16, u32), Remove(Nm, u16), Touch(Nm), RemoveAll, RemoveAllAt(Nm),
-    CnameAt(Nm, u32), Regular(Nm), Commit, Drop,
+    CnameAt(Nm, u32), CutAt(Nm, u32, Option<u32>, Option<u32>), Regular(Nm), Commit, Drop,
+    /// a data operation through the root handle kept from the session that the last commit/drop ended
+    Stale(Box<Ev>),
 }
+fn oword(x: &Option<u32>) -> String { x.map_or("-".to_string(), |x| x.to_string()) }
 impl Ev {
     fn word(&self) -> String {
-        let f = |n: &Nm| n.flat_id().map_or(n.show(), |i| i.to_string());
         match self {
-            Ev::Acquire(r) => format!("A:{}", r), Ev::Query(r, n, t) => format!("Q:{}:{}:{}", r, f(n), t), Ev::Walk(r) => format!("W:{}", r),
+            Ev::Acquire(r) => format!("A:{}", r), Ev::Query(r, n, t) => format!("Q:{}:{}:{}", r, n.word(), t), Ev::Walk(r) => format!("W:{}", r),
             Ev::Release(r) => format!("R:{}", r), Ev::WAcquire | Ev::WQueue | Ev::WTake => "wa".into(), Ev::WOpen => "wo".into(),
-            Ev::Update(n, t, rr) => format!("u:{}:{}:{}", f(n), t, rr), Ev::Remove(n, t) => format!("r:{}:{}", f(n), t), Ev::Touch(n) => format!("t:{}", f(n)),
-            Ev::RemoveAll => "ra".into(), Ev::RemoveAllAt(n) => format!("rn:{}", f(n)), Ev::CnameAt(n, id) => format!("cn:{}:{}", f(n), id),
-            Ev::Regular(n) => format!("rg:{}", f(n)), Ev::Commit => "c".into(), Ev::Drop => "d".into(),
+            Ev::Update(n, t, rr) => format!("u:{}:{}:{}", n.word(), t, rr), Ev::Remove(n, t) => format!("r:{}:{}", n.word(), t), Ev::Touch(n) => format!("t:{}", n.word()),
+            Ev::RemoveAll => "ra".into(), Ev::RemoveAllAt(n) => format!("rn:{}", n.word()), Ev::CnameAt(n, id) => format!("cn:{}:{}", n.word(), id),
+            Ev::CutAt(n, ns, ds, g) => format!("ct:{}:{}:{}:{}", n.word(), ns, oword(ds), oword(g)),
+            Ev::Regular(n) => format!("rg:{}", n.word()), Ev::Commit => "c".into(), Ev::Drop => "d".into(),
+            Ev::Stale(e) => format!("s:{}", e.word()),
         }
     }
-    fn is_data(&self) -> bool { matches!(self, Ev::Update(..) | Ev::Remove(..) | Ev::Touch(..) | Ev::RemoveAll | Ev::RemoveAllAt(..) | Ev::CnameAt(..) | Ev::Regular(..)) }
+    fn is_data(&self) -> bool { matches!(self, Ev::Update(..) | Ev::Remove(..) | Ev::Touch(..) | Ev::RemoveAll | Ev::RemoveAllAt(..) | Ev::CnameAt(..) | Ev::CutAt(..) | Ev::Regular(..)) }
 }
 
 #[derive(Clone, Debug)]
-enum Init { Rrset(Nm, u16, u32), Cname(Nm, u32) }
+enum Init { Rrset(Nm, u16, u32), Cname(Nm, u32), Cut(Nm, u32, Option<u32>, Option<u32>) }
 impl Init {
     fn word(&self) -> String {
-        let f = |n: &Nm| n.flat_id().map_or(n.show(), |i| i.to_string());
-        match self { Init::Rrset(n, t, rr) => format!("i:{}:{}:{}", f(n), t, rr), Init::Cname(n, id) => format!("ic:{}:{}", f(n), id) }
+        match self {
+            Init::Rrset(n, t, rr) => format!("i:{}:{}:{}", n.word(), t, rr), Init::Cname(n, id) => format!("ic:{}:{}", n.word(), id),
+            Init::Cut(n, ns, ds, g) => format!("iz:{}:{}:{}:{}", n.word(), ns, oword(ds), oword(g)),
+        }
     }
 }
 
+#[derive(Clone, PartialEq, Debug)]
+enum Sp { Cname(u32), Cut(u32, Option<u32>, Option<u32>) }
+
 /// The oracle's own notion of zone content (what a version contains).
 #[derive(Clone, Default, PartialEq, Debug)]
-struct Content { rr: BTreeMap<(Nm, u16), u32>, cname: BTreeMap<Nm, u32> }
+struct Content { rr: BTreeMap<(Nm, u16), u32>, sp: BTreeMap<Nm, Sp> }
 impl Content {
     fn apply(&mut self, e: &Ev) {
         match e {
             Ev::Update(n, t, rr) => { if *rr == 0 { self.rr.remove(&(n.clone(), *t)); } else { self.rr.insert((n.clone(), *t), *rr); } }
             Ev::Remove(n, t) => { self.rr.remove(&(n.clone(), *t)); }
-            Ev::RemoveAll => { self.rr.clear(); self.cname.clear(); }
-            Ev::RemoveAllAt(n) => { self.rr.retain(|k, _| !n.is_prefix_of(&k.0)); self.cname.retain(|k, _| !n.is_prefix_of(k)); }
-            Ev::CnameAt(n, id) => { self.cname.insert(n.clone(), *id); }
-            Ev::Regular(n) => { self.cname.remove(n); }
+            Ev::RemoveAll => { self.rr.clear(); self.sp.clear(); }
+            Ev::RemoveAllAt(n) => { self.rr.retain(|k, _| !n.is_prefix_of(&k.0)); self.sp.retain(|k, _| !n.is_prefix_of(k)); }
+            Ev::CnameAt(n, id) => { self.sp.insert(n.clone(), Sp::Cname(*id)); }
+            Ev::CutAt(n, ns, ds, g) => { self.sp.insert(n.clone(), Sp::Cut(*ns, *ds, *g)); }
+            Ev::Regular(n) => { self.sp.remove(n); }
             _ => {}
         }
     }
+    fn under_cut(&self, n: &Nm) -> bool { n.proper_prefixes().iter().any(|p| matches!(self.sp.get(p), Some(Sp::Cut(..)))) }
+    /// the records a walk must report: everything not below a zone cut
     fn walk(&self) -> Vec<(String, u16, u32)> {
-        let mut v: Vec<(String, u16, u32)> = self.rr.iter().map(|((n, t), rr)| (n.show(), *t, *rr)).collect();
-        for (n, id) in &self.cname { v.push((n.show(), T_CNAME, *id)); }
+        let mut v: Vec<(String, u16, u32)> = self.rr.iter().filter(|((n, _), _)| !self.under_cut(n)).map(|((n, t), rr)| (n.word(), *t, *rr)).collect();
+        for (n, sp) in &self.sp {
+            if self.under_cut(n) { continue; }
+            match sp {
+                Sp::Cname(id) => v.push((n.word(), T_CNAME, *id)),
+                Sp::Cut(ns, ds, g) => { v.push((n.word(), T_NS, *ns)); if let Some(d) = ds { v.push((n.word(), T_DS, *d)); } if let Some(g) = g { v.push((n.word(), T_A, *g)); } }
+            }
+        }
         v.sort();
         v
     }
+    fn any_wildcard(&self) -> bool { self.rr.keys().any(|k| k.0 .0.contains(&1)) || self.sp.keys().any(|k| k.0.contains(&1)) }
 }
 
 type Snap = (BTreeMap<(Nm, u16), String>, Vec<(String, u16, u32)>);
 
-struct Held { rd: Box<dyn ReadableZone>, snap: Snap, seq: u64 }
+struct Held { rd: Box<dyn ReadableZone>, snap: Snap }
 
 struct Sys {
     rt: tokio::runtime::Runtime,
@@ -345,13 +404,10 @@ struct Sys {
     /// a second `write().await` that was requested while `writer` existed and is kept alive
     queued: Option<tokio::task::JoinHandle<Box<dyn WritableZone>>>,
     root: Option<Box<dyn WritableZoneNode>>,
-    /// nodes present in the tree -> sequence number of the step that created them
-    nodes: BTreeMap<Nm, u64>,
-    /// nodes created by the current (uncommitted) writer session
-    session_created: BTreeSet<Nm>,
-    /// nodes that exist only because an aborted session created them
-    ghosts: BTreeSet<Nm>,
-    seq: u64,
+    /// the root handle of the session ended by the last commit/drop, kept by the client
+    stale_root: Option<Box<dyn WritableZoneNode>>,
+    /// some operation through `stale_root` was accepted by the implementation
+    stale_effective: bool,
     committed: Content,
     pending: Content,
     pre_session: Option<Snap>,
@@ -365,21 +421,30 @@ impl Sys {
     fn new(inits: &[Init], universe: Vec<Nm>, types: Vec<u16>) -> Sys {
         let rt = tokio::runtime::Builder::new_current_thread().enable_all().start_paused(true).build().unwrap();
         let mut b = ZoneBuilder::new(apex(), Class::IN);
-        let mut nodes = BTreeMap::new();
         let mut content = Content::default();
         for i in inits {
             match i {
-                Init::Rrset(n, t, rr) => { b.insert_rrset(&n.abs(), mk_rrset(*t, *rr)).unwrap(); if *rr != 0 { content.rr.insert((n.clone(), *t), *rr); } else { content.rr.remove(&(n.clone(), *t)); } for p in n.prefixes() { nodes.insert(p, 0); } }
-                Init::Cname(n, id) => { b.insert_cname(&n.abs(), mk_cname(*id)).unwrap(); content.cname.insert(n.clone(), *id); for p in n.prefixes() { nodes.insert(p, 0); } }
+                Init::Rrset(n, t, rr) => { b.insert_rrset(&n.abs(), mk_rrset(*t, *rr)).unwrap(); content.rr.insert((n.clone(), *t), *rr); }
+                Init::Cname(n, id) => { b.insert_cname(&n.abs(), mk_cname(*id)).unwrap(); content.sp.insert(n.clone(), Sp::Cname(*id)); }
+                Init::Cut(n, ns, ds, g) => { let c = mk_cut(n, *ns, *ds, *g); b.insert_zone_cut(&n.abs(), c.ns, c.ds, c.glue).unwrap(); content.sp.insert(n.clone(), Sp::Cut(*ns, *ds, *g)); }
             }
         }
-        Sys { rt, zone: b.build(), universe, types, readers: BTreeMap::new(), writer: None, queued: None, root: None, nodes, session_created: BTreeSet::new(),
-              ghosts: BTreeSet::new(), seq: 0, committed: content.clone(), pending: content, pre_session: None }
+        Sys { rt, zone: b.build(), universe, types, readers: BTreeMap::new(), writer: None, queued: None, root: None, stale_root: None, stale_effective: false,
+              committed: content.clone(), pending: content, pre_session: None }
     }
 
-    fn snapshot(&self, rd: &dyn ReadableZone) -> Snap {
+    fn snapshot(&self, rd: &dyn ReadableZone, fails: &mut Vec<Fail>) -> Snap {
         let mut m = BTreeMap::new();
         for n in &self.universe { for t in &self.types { m.insert((n.clone(), *t), observe(rd, n, *t)); } }
+        // an ANY answer must be an RRset of this very version
+        for n in &self.universe {
+            let (o, which) = observe_full(rd, n, T_ANY);
+            if let Some((t, id)) = which {
+                let same = observe(rd, n, t);
+                if same != format!("D{}", id) { fails.push(Fail { class: "any_not_in_version", detail: format!("ANY at {} returned type {} id {} but a query for that type answers {}", n.word(), t, id, same) }); }
+            }
+            m.insert((n.clone(), T_ANY), o);
+        }
         (m, walk_of(rd))
     }
 
@@ -388,42 +453,48 @@ impl Sys {
         self.rt.block_on(async move { tokio::time::timeout(Duration::from_millis(50), z.write()).await.ok() })
     }
 
-    /// child node handle for `n` (update_child along the path), recording created nodes
-    fn node_for(&mut self, n: &Nm) -> Option<Box<dyn WritableZoneNode>> {
+    /// child node handle for `n` (update_child along the path) from the live or the kept root
+    fn node_via(&self, n: &Nm, stale: bool) -> Result<Option<Box<dyn WritableZoneNode>>, std::io::Error> {
         let mut cur: Option<Box<dyn WritableZoneNode>> = None;
-        for (i, l) in n.0.iter().enumerate() {
-            let lab = Label::from_slice(l.as_bytes()).unwrap();
+        for l in n.0.iter() {
+            let ls = Nm::label(*l);
+            let lab = Label::from_slice(ls.as_bytes()).unwrap();
             let next = {
-                let parent: &dyn WritableZoneNode = match &cur { Some(c) => c.as_ref(), None => self.root.as_ref().unwrap().as_ref() };
-                self.rt.block_on(parent.update_child(lab)).unwrap()
+                let top = if stale { self.stale_root.as_ref() } else { self.root.as_ref() };
+                let parent: &dyn WritableZoneNode = match &cur { Some(c) => c.as_ref(), None => top.unwrap().as_ref() };
+                self.rt.block_on(parent.update_child(lab))?
             };
-            let p = Nm(n.0[..=i].to_vec());
-            if !self.nodes.contains_key(&p) { self.nodes.insert(p.clone(), self.seq); self.session_created.insert(p.clone()); }
-            // a node left behind by an aborted session becomes legitimate only if this session commits
-            if self.ghosts.remove(&p) { self.session_created.insert(p.clone()); }
             cur = Some(next);
         }
-        cur
+        Ok(cur)
     }
 
-    /// is a changed answer at `q` explained by a node that was created at or after step `since`?
-    fn created_explains(&self, q: &Nm, since: u64, old: &str, new: &str) -> bool {
-        let no_data = |s: &str| s.starts_with("X(") || s.starts_with("N(");
-        if !no_data(new) { return false; }
-        let _ = old;
-        self.nodes.iter().any(|(c, s)| *s >= since && (c.is_prefix_of(q)
-            || (c.0.last().map_or(false, |l| l == "*") && Nm(c.0[..c.0.len() - 1].to_vec()).is_prefix_of(q) && c.0.len() <= q.0.len())))
+    /// a data operation through the live (`stale` = false) or the kept root handle
+    fn data_op(&self, d: &Ev, stale: bool) -> Result<(), std::io::Error> {
+        let h = match d {
+            Ev::Update(n, ..) | Ev::Remove(n, ..) | Ev::Touch(n) | Ev::RemoveAllAt(n) | Ev::CnameAt(n, ..) | Ev::CutAt(n, ..) | Ev::Regular(n) => self.node_via(n, stale)?,
+            _ => None,
+        };
+        let top = if stale { self.stale_root.as_ref().unwrap() } else { self.root.as_ref().unwrap() };
+        let node: &dyn WritableZoneNode = match &h { Some(h) => h.as_ref(), None => top.as_ref() };
+        match d {
+            Ev::Update(_, t, rr) => self.rt.block_on(node.update_rrset(mk_rrset(*t, *rr))),
+            Ev::Remove(_, t) => self.rt.block_on(node.remove_rrset(Rtype::from_int(*t))),
+            Ev::Touch(_) => Ok(()),
+            Ev::RemoveAll | Ev::RemoveAllAt(_) => self.rt.block_on(node.remove_all()),
+            Ev::CnameAt(_, id) => self.rt.block_on(node.make_cname(mk_cname(*id))),
+            Ev::CutAt(n, ns, ds, g) => self.rt.block_on(node.make_zone_cut(mk_cut(n, *ns, *ds, *g))),
+            Ev::Regular(_) => self.rt.block_on(node.make_regular()),
+            _ => Ok(()),
+        }
     }
 
-    fn compare(&self, old: &Snap, new: &Snap, since: u64, plain: &'static str, known: &'static str, who: &str, fails: &mut Vec<Fail>) {
+    fn compare(&self, old: &Snap, new: &Snap, class: &'static str, who: &str, fails: &mut Vec<Fail>) {
         for (k, o) in &old.0 {
             let n = &new.0[k];
-            if o != n {
-                let class = if self.created_explains(&k.0, since, o, n) { known } else { plain };
-                fails.push(Fail { class, detail: format!("{}: {} type {}: {} -> {}", who, k.0.show(), k.1, o, n) });
-            }
+            if o != n { fails.push(Fail { class, detail: format!("{}: {} type {}: {} -> {}", who, k.0.word(), k.1, o, n) }); }
         }
-        if old.1 != new.1 { fails.push(Fail { class: "walk_mismatch", detail: format!("{}: walk {:?} -> {:?}", who, old.1, new.1) }); }
+        if old.1 != new.1 { fails.push(Fail { class: "walk_mismatch", detail: format!("{}: walk {} -> {}", who, show_walk(&old.1), show_walk(&new.1)) }); }
     }
 
     /// data-level check of a fresh reader against the oracle's committed content
@@ -431,65 +502,60 @@ impl Sys {
         let rd = self.zone.read();
         let w = walk_of(rd.as_ref());
         let want = self.committed.walk();
-        if w != want { fails.push(Fail { class: "walk_mismatch", detail: format!("{}: fresh reader walk {:?}, committed content {:?}", when, w, want) }); }
-        let star = Nm(vec!["*".into()]);
-        let star_has = self.committed.cname.contains_key(&star) || self.committed.rr.keys().any(|k| k.0 == star);
+        if w != want { fails.push(Fail { class: "walk_mismatch", detail: format!("{}: fresh reader walk {}, committed content {}", when, show_walk(&w), show_walk(&want)) }); }
+        let wild = self.committed.any_wildcard();
         for n in &self.universe {
-            if n.0.len() > 1 { continue; }
+            // below or at a zone cut the zone only refers
+            if self.committed.under_cut(n) { continue; }
             for t in &self.types {
                 let o = observe(rd.as_ref(), n, *t);
-                let want = if let Some(id) = self.committed.cname.get(n) { Some(format!("C{}", id)) }
-                    else { self.committed.rr.get(&(n.clone(), *t)).map(|rr| format!("D{}", rr)) };
-                let own = self.committed.cname.contains_key(n) || self.committed.rr.keys().any(|k| &k.0 == n);
+                let want = match self.committed.sp.get(n) {
+                    Some(Sp::Cname(id)) => Some(format!("C{}", id)),
+                    Some(Sp::Cut(ns, ds, g)) => Some(if *t == T_DS { match ds { Some(d) => format!("D{}", d), None => "N".into() } } else { format!("R{}({})({})", ns, oword(ds), oword(g)) }),
+                    None => self.committed.rr.get(&(n.clone(), *t)).map(|rr| format!("D{}", rr)),
+                };
                 match want {
-                    Some(wd) => if o != wd { fails.push(Fail { class, detail: format!("{}: fresh reader {} type {}: {} expected {}", when, n.show(), t, o, wd) }); },
+                    Some(wd) if wd == "N" => if !o.starts_with("N(") { fails.push(Fail { class, detail: format!("{}: fresh reader {} type {}: {} expected NODATA", when, n.word(), t, o) }); },
+                    Some(wd) => if o != wd { fails.push(Fail { class, detail: format!("{}: fresh reader {} type {}: {} expected {}", when, n.word(), t, o, wd) }); },
                     None => {
                         let nodata = o.starts_with("X(") || o.starts_with("N(");
-                        let wildcard_may_apply = star_has && !own && !n.0.is_empty();
-                        if !nodata && !wildcard_may_apply { fails.push(Fail { class, detail: format!("{}: fresh reader {} type {}: {} but the committed content has no such record", when, n.show(), t, o) }); }
+                        // a name without own content may be answered from a wildcard
+                        let own = self.committed.rr.keys().any(|k| n.is_prefix_of(&k.0)) || self.committed.sp.keys().any(|k| n.is_prefix_of(k));
+                        if !nodata && !(wild && !own && !n.0.is_empty()) { fails.push(Fail { class, detail: format!("{}: fresh reader {} type {}: {} but the committed content has no such record", when, n.word(), t, o) }); }
                     }
                 }
             }
         }
     }
 
+    fn begin_session(&mut self, fails: &mut Vec<Fail>) {
+        let rd = self.zone.read();
+        self.pre_session = Some(self.snapshot(rd.as_ref(), fails));
+        self.pending = self.committed.clone();
+    }
+
     /// run one event; returns the T2 observation (if the event has one)
     fn exec(&mut self, e: &Ev, fails: &mut Vec<Fail>) -> Option<String> {
-        self.seq += 1;
         let mut obs = None;
         match e {
             Ev::Acquire(r) => {
                 let rd = self.zone.read();
-                let snap = self.snapshot(rd.as_ref());
-                self.readers.insert(*r, Held { rd, snap, seq: self.seq });
+                let snap = self.snapshot(rd.as_ref(), fails);
+                self.readers.insert(*r, Held { rd, snap });
             }
             Ev::Release(r) => { self.readers.remove(r); }
             Ev::Query(r, n, t) => { obs = Some(match self.readers.get(r) { Some(h) => observe(h.rd.as_ref(), n, *t), None => "noreader".into() }); }
-            Ev::Walk(r) => {
-                obs = Some(match self.readers.get(r) {
-                    Some(h) => {
-                        let mut w: Vec<(u64, u16, u32)> = walk_of(h.rd.as_ref()).iter().map(|(o, t, id)| (show_owner_id(o).parse::<u64>().unwrap_or(u64::MAX), *t, *id)).collect();
-                        w.sort();
-                        format!("W[{}]", w.iter().map(|(o, t, id)| format!("{}.{}.{}", o, t, id)).collect::<Vec<_>>().join(","))
-                    }
-                    None => "noreader".into() });
-            }
+            Ev::Walk(r) => { obs = Some(match self.readers.get(r) { Some(h) => show_walk(&walk_of(h.rd.as_ref())), None => "noreader".into() }); }
             Ev::WAcquire => {
                 let had = self.writer.is_some();
                 let got = self.try_write();
+                obs = Some(if got.is_some() { "granted".into() } else { "pending".into() });
                 if had {
-                    obs = Some(if got.is_some() { "granted".into() } else { "pending".into() });
                     if got.is_some() { fails.push(Fail { class: "second_writer_granted", detail: "write().await completed while another WritableZone is alive".into() }); }
                     drop(got);
                 } else {
-                    obs = Some(if got.is_some() { "granted".into() } else { "pending".into() });
                     if got.is_none() { fails.push(Fail { class: "writer_lock_stuck", detail: "write().await pending although no writer exists".into() }); }
-                    if got.is_some() {
-                        let rd = self.zone.read();
-                        self.pre_session = Some(self.snapshot(rd.as_ref()));
-                        self.pending = self.committed.clone();
-                        self.session_created.clear();
-                    }
+                    if got.is_some() { self.begin_session(fails); }
                     self.writer = got;
                 }
             }
@@ -515,14 +581,7 @@ impl Sys {
                 if let (None, Some(h)) = (&self.writer, self.queued.take()) {
                     let got = self.rt.block_on(async move { tokio::time::timeout(Duration::from_millis(50), h).await });
                     match got {
-                        Ok(Ok(w)) => {
-                            obs = Some("granted".into());
-                            let rd = self.zone.read();
-                            self.pre_session = Some(self.snapshot(rd.as_ref()));
-                            self.pending = self.committed.clone();
-                            self.session_created.clear();
-                            self.writer = Some(w);
-                        }
+                        Ok(Ok(w)) => { obs = Some("granted".into()); self.begin_session(fails); self.writer = Some(w); }
                         _ => {
                             obs = Some("pending".into());
                             fails.push(Fail { class: "writer_lock_stuck", detail: "queued write().await still pending after the writer was dropped".into() });
@@ -533,35 +592,29 @@ impl Sys {
             Ev::WOpen => { if let Some(w) = &self.writer { self.root = Some(self.rt.block_on(w.open(false)).unwrap()); } }
             Ev::Commit => {
                 if let Some(w) = self.writer.as_mut() {
-                    self.root = None;
+                    if let Some(r) = self.root.take() { self.stale_root = Some(r); }
                     self.rt.block_on(w.commit(false)).unwrap();
                     self.committed = self.pending.clone();
-                    self.session_created.clear();
                     let rd = self.zone.read();
-                    self.pre_session = Some(self.snapshot(rd.as_ref()));
+                    self.pre_session = Some(self.snapshot(rd.as_ref(), fails));
                 }
             }
             Ev::Drop => {
                 if self.writer.is_some() {
-                    self.root = None;
+                    if let Some(r) = self.root.take() { self.stale_root = Some(r); }
                     self.writer = None;
                     self.pending = self.committed.clone();
-                    for c in std::mem::take(&mut self.session_created) { self.ghosts.insert(c); }
                 }
+            }
+            Ev::Stale(d) => {
+                obs = Some(if self.stale_root.is_none() { "snone".to_string() } else {
+                    match self.data_op(d, true) { Ok(()) => { self.stale_effective = true; "sdone".into() } Err(_) => "srej".into() }
+                });
             }
             d if d.is_data() => {
                 if self.root.is_some() {
                     self.pending.apply(d);
-                    match d {
-                        Ev::Update(n, t, rr) => { let rs = mk_rrset(*t, *rr); match self.node_for(n) { Some(h) => self.rt.block_on(h.update_rrset(rs)).unwrap(), None => self.rt.block_on(self.root.as_ref().unwrap().update_rrset(rs)).unwrap() } }
-                        Ev::Remove(n, t) => { let rt_ = Rtype::from_int(*t); match self.node_for(n) { Some(h) => self.rt.block_on(h.remove_rrset(rt_)).unwrap(), None => self.rt.block_on(self.root.as_ref().unwrap().remove_rrset(rt_)).unwrap() } }
-                        Ev::Touch(n) => { let _ = self.node_for(n); }
-                        Ev::RemoveAll => { self.rt.block_on(self.root.as_ref().unwrap().remove_all()).unwrap(); }
-                        Ev::RemoveAllAt(n) => { if let Some(h) = self.node_for(n) { self.rt.block_on(h.remove_all()).unwrap(); } }
-                        Ev::CnameAt(n, id) => { if let Some(h) = self.node_for(n) { self.rt.block_on(h.make_cname(mk_cname(*id))).unwrap(); } }
-                        Ev::Regular(n) => { if let Some(h) = self.node_for(n) { self.rt.block_on(h.make_regular()).unwrap(); } }
-                        _ => {}
-                    }
+                    self.data_op(d, false).unwrap();
                 }
             }
             _ => {}
@@ -573,52 +626,30 @@ impl Sys {
     fn oracle(&self, e: &Ev, fails: &mut Vec<Fail>) {
         // held readers keep their snapshot
         for (r, h) in &self.readers {
-            let now = self.snapshot(h.rd.as_ref());
-            self.compare(&h.snap, &now, h.seq, "snapshot_changed", "held_reader_sees_update_child", &format!("reader {} after {}", r, e.word()), fails);
+            let now = self.snapshot(h.rd.as_ref(), fails);
+            self.compare(&h.snap, &now, "snapshot_changed", &format!("reader {} after {}", r, e.word()), fails);
         }
         match e {
             Ev::Drop => {
                 // abort (or drop after commit): a fresh reader sees what was committed
                 if let Some(pre) = &self.pre_session {
                     let rd = self.zone.read();
-                    let now = self.snapshot(rd.as_ref());
-                    let since = self.ghosts.iter().filter_map(|g| self.nodes.get(g)).min().copied().unwrap_or(u64::MAX);
-                    // only nodes created by the session just dropped may explain a difference
-                    let since = if self.ghosts.is_empty() { u64::MAX } else { since };
-                    self.compare_abort(pre, &now, since, fails);
+                    let now = self.snapshot(rd.as_ref(), fails);
+                    self.compare(pre, &now, "abort_visible", "fresh reader after drop", fails);
                 }
-                self.check_fresh(fails, "abort_visible_other", "after drop");
+                self.check_fresh(fails, "abort_visible", "after drop");
             }
             Ev::Commit => self.check_fresh(fails, "commit_not_atomic", "after commit"),
-            d if d.is_data() || matches!(d, Ev::WOpen | Ev::WAcquire | Ev::WQueue | Ev::WTake) => self.check_fresh(fails, "commit_not_atomic", &format!("before commit, after {}", d.word())),
+            d if d.is_data() || matches!(d, Ev::WOpen | Ev::WAcquire | Ev::WQueue | Ev::WTake | Ev::Stale(_)) => self.check_fresh(fails, "commit_not_atomic", &format!("before commit, after {}", d.word())),
             _ => {}
         }
     }
-
-    fn compare_abort(&self, old: &Snap, new: &Snap, _since: u64, fails: &mut Vec<Fail>) {
-        for (k, o) in &old.0 {
-            let n = &new.0[k];
-            if o != n {
-                let no_data = n.starts_with("X(") || n.starts_with("N(");
-                let q = &k.0;
-                let ghost = self.ghosts.iter().any(|c| c.is_prefix_of(q)
-                    || (c.0.last().map_or(false, |l| l == "*") && Nm(c.0[..c.0.len() - 1].to_vec()).is_prefix_of(q) && c.0.len() <= q.0.len()));
-                let class = if no_data && ghost { "aborted_update_child_visible" } else { "abort_visible_other" };
-                fails.push(Fail { class, detail: format!("fresh reader after drop: {} type {}: {} -> {}", q.show(), k.1, o, n) });
-            }
-        }
-        if old.1 != new.1 { fails.push(Fail { class: "walk_mismatch", detail: format!("fresh reader after drop: walk {:?} -> {:?}", old.1, new.1) }); }
-    }
 }
 
-fn show_owner_id(o: &str) -> String {
-    if o == "@" { "0".into() } else if o == "*" { "1".into() } else { o.strip_prefix('n').unwrap_or(o).to_string() }
-}
-
-fn run_trace(out: &mut Out, inits: &[Init], evs: &[Ev], universe: Vec<Nm>, flat: bool, kind: &str) {
+fn run_trace(out: &mut Out, inits: &[Init], evs: &[Ev], universe: Vec<Nm>, kind: &str) {
     let case = format!("zt {} ; {}", inits.iter().map(|i| i.word()).collect::<Vec<_>>().join(" "), evs.iter().map(|e| e.word()).collect::<Vec<_>>().join(" "));
     out.begin(&case);
-    let types = vec![T_A, T_TXT, T_AAAA, T_SOA];
+    let types = vec![T_A, T_TXT, T_AAAA, T_SOA, T_DS];
     let r = catch_mut(|| {
         let mut sys = Sys::new(inits, universe, types);
         let mut fails: Vec<Fail> = vec![];
@@ -627,10 +658,12 @@ fn run_trace(out: &mut Out, inits: &[Init], evs: &[Ev], universe: Vec<Nm>, flat:
             if let Some(o) = sys.exec(e, &mut fails) { obs.push(o); }
             if !matches!(e, Ev::Query(..) | Ev::Walk(..) | Ev::Release(..)) { sys.oracle(e, &mut fails); }
         }
+        // once a write through a retired handle was accepted, whatever goes wrong afterwards is its doing
+        if sys.stale_effective { for f in fails.iter_mut() { f.class = "stale_node_handle_write"; } }
         (obs, fails)
     });
-    let classes = ["snapshot_changed", "held_reader_sees_update_child", "commit_not_atomic", "aborted_update_child_visible",
-        "abort_visible_other", "walk_mismatch", "second_writer_granted", "writer_lock_stuck"];
+    let classes = ["snapshot_changed", "commit_not_atomic", "abort_visible", "walk_mismatch", "any_not_in_version",
+        "second_writer_granted", "writer_lock_stuck", "stale_node_handle_write"];
     match r {
         Ok((obs, fails)) => {
             for c in classes {
@@ -640,28 +673,47 @@ fn run_trace(out: &mut Out, inits: &[Init], evs: &[Ev], universe: Vec<Nm>, flat:
             }
             out.check(true, "zone_panic", &case, "");
             let line = if obs.is_empty() { "-".to_string() } else { obs.join(" ") };
-            let nontrivial = evs.iter().any(|e| e.is_data()) && evs.iter().any(|e| matches!(e, Ev::Query(..) | Ev::Walk(..)));
-            if flat { out.case(&case, &line, nontrivial, kind); } else { out.oracle_case(&case, nontrivial, kind); }
+            let nontrivial = evs.iter().any(|e| e.is_data() || matches!(e, Ev::Stale(_))) && evs.iter().any(|e| matches!(e, Ev::Query(..) | Ev::Walk(..)));
+            out.case(&case, &line, nontrivial, kind);
         }
-        Err(p) => { out.check(false, "zone_panic", &case, &p); if flat { out.case(&case, "Panic", true, kind); } }
+        Err(p) => { out.check(false, "zone_panic", &case, &p); out.case(&case, "Panic", true, kind); }
     }
 }
 
-/// random trace: one writer, up to 4 held readers
-fn gen_trace(r: &mut Rng, names: &[Nm], max_len: usize, create_ok: bool, existing: &BTreeSet<Nm>) -> Vec<Ev> {
-    let types = [T_A, T_TXT, T_AAAA, T_SOA];
+fn gen_data(r: &mut Rng, n: Nm, val: u32) -> Ev {
+    let types = [T_A, T_TXT, T_AAAA];
+    match r.below(18) {
+        0..=6 => { let t = if n.0.is_empty() && r.chance(1, 3) { T_SOA } else { *r.pick(&types) }; Ev::Update(n, t, if r.chance(1, 12) { 0 } else { val }) }
+        7..=9 => { let t = if n.0.is_empty() && r.chance(1, 4) { T_SOA } else { *r.pick(&types) }; Ev::Remove(n, t) }
+        10 => if n.0.is_empty() { Ev::RemoveAll } else { Ev::Touch(n) },
+        11 => Ev::RemoveAll,
+        12 => if n.0.is_empty() { Ev::RemoveAll } else { Ev::RemoveAllAt(n) },
+        13 | 14 => if n.0.is_empty() { Ev::Update(n, T_A, val) } else { Ev::CnameAt(n, val) },
+        15 | 16 => if n.0.is_empty() { Ev::Update(n, T_TXT, val) } else { Ev::CutAt(n, val, if r.chance(1, 2) { Some(val + 1000) } else { None }, if r.chance(1, 2) { Some(val + 2000) } else { None }) },
+        _ => if n.0.is_empty() { Ev::Remove(n, T_A) } else { Ev::Regular(n) },
+    }
+}
+
+/// random trace: one writer (plus at most one queued request), up to 4 held readers
+fn gen_trace(r: &mut Rng, names: &[Nm], targets: &[Nm], max_len: usize, stale: bool) -> Vec<Ev> {
+    let types = [T_A, T_TXT, T_AAAA, T_SOA, T_DS, T_ANY];
     let mut evs = vec![];
     let mut held: Vec<u32> = vec![];
     let mut writer = false; let mut open = false; let mut queued = false;
     let mut val = 100u32;
     let n_ev = r.range(4, max_len as u64) as usize;
-    // names a data operation may address
-    let targets: Vec<Nm> = names.iter().filter(|n| create_ok || n.0.is_empty() || existing.contains(n)).cloned().collect();
+    let mut have_handle = false;
     while evs.len() < n_ev {
+        if stale && have_handle && !targets.is_empty() && r.chance(1, 5) {
+            val += 1;
+            let n = r.pick(targets).clone();
+            evs.push(Ev::Stale(Box::new(gen_data(r, n, val))));
+            continue;
+        }
         match r.below(20) {
             0..=2 => { if held.len() < 4 { let id = (0..4u32).find(|i| !held.contains(i)).unwrap(); held.push(id); evs.push(Ev::Acquire(id)); } }
             3 => { if !held.is_empty() && r.chance(1, 2) { let i = r.below(held.len() as u64) as usize; let id = held.remove(i); evs.push(Ev::Release(id)); } }
-            4..=7 => { if !held.is_empty() { let id = *r.pick(&held); let n = r.pick(names).clone(); let t = if n.0.is_empty() { *r.pick(&types) } else { *r.pick(&types[..3]) }; evs.push(Ev::Query(id, n, t)); } }
+            4..=7 => { if !held.is_empty() { let id = *r.pick(&held); let n = r.pick(names).clone(); let t = if n.0.is_empty() { *r.pick(&types) } else { *r.pick(&[T_A, T_TXT, T_AAAA, T_A, T_DS, T_ANY]) }; evs.push(Ev::Query(id, n, t)); } }
             8 => { if !held.is_empty() { let id = *r.pick(&held); evs.push(Ev::Walk(id)); } }
             9 => { if !writer { writer = true; open = false; evs.push(Ev::WAcquire); } else if r.chance(1, 3) { evs.push(Ev::WAcquire); } else if !queued && r.chance(1, 2) { queued = true; evs.push(Ev::WQueue); } }
             10 => { if writer && (!open || r.chance(1, 4)) { open = true; evs.push(Ev::WOpen); } }
@@ -669,21 +721,13 @@ fn gen_trace(r: &mut Rng, names: &[Nm], max_len: usize, create_ok: bool, existin
                 if !writer { writer = true; evs.push(Ev::WAcquire); open = false; }
                 if !open { open = true; evs.push(Ev::WOpen); }
                 if targets.is_empty() { continue; }
-                let n = r.pick(&targets).clone();
+                let n = r.pick(targets).clone();
                 val += 1;
-                let e = match r.below(16) {
-                    0..=6 => { let t = if n.0.is_empty() && r.chance(1, 3) { T_SOA } else { *r.pick(&types[..3]) }; Ev::Update(n, t, if r.chance(1, 12) { 0 } else { val }) }
-                    7..=9 => { let t = if n.0.is_empty() && r.chance(1, 4) { T_SOA } else { *r.pick(&types[..3]) }; Ev::Remove(n, t) }
-                    10 => if n.0.is_empty() { Ev::RemoveAll } else { Ev::Touch(n) },
-                    11 => Ev::RemoveAll,
-                    12 => if n.0.is_empty() { Ev::RemoveAll } else { Ev::RemoveAllAt(n) },
-                    13 | 14 => if n.0.is_empty() { Ev::Update(n, T_A, val) } else { Ev::CnameAt(n, val) },
-                    _ => if n.0.is_empty() { Ev::Remove(n, T_A) } else { Ev::Regular(n) },
-                };
+                let e = gen_data(r, n, val);
                 evs.push(e);
             }
-            17 | 18 => { if writer { open = false; evs.push(Ev::Commit); } }
-            _ => { if writer { writer = false; open = false; evs.push(Ev::Drop); if queued { queued = false; writer = true; evs.push(Ev::WTake); } } }
+            17 | 18 => { if writer { if open { have_handle = true; } open = false; evs.push(Ev::Commit); } }
+            _ => { if writer { if open { have_handle = true; } writer = false; open = false; evs.push(Ev::Drop); if queued { queued = false; writer = true; evs.push(Ev::WTake); } } }
         }
     }
     if writer && r.chance(2, 3) {
@@ -705,14 +749,19 @@ fn gen_inits(r: &mut Rng, names: &[Nm], p_num: u64) -> Vec<Init> {
         for t in [T_A, T_TXT, T_AAAA] {
             if r.chance(p_num, 10) { val += 1; v.push(Init::Rrset(n.clone(), t, val)); }
         }
-        if !n.0.is_empty() && r.chance(1, 10) { val += 1; v.push(Init::Cname(n.clone(), val)); }
+        if !n.0.is_empty() && r.chance(1, 12) { val += 1; v.push(Init::Cname(n.clone(), val)); }
+        else if !n.0.is_empty() && r.chance(1, 12) { val += 1; v.push(Init::Cut(n.clone(), val, if r.chance(1, 2) { Some(val + 1000) } else { None }, if r.chance(1, 2) { Some(val + 2000) } else { None })); }
     }
     v
 }
 
-fn existing_nodes(inits: &[Init]) -> BTreeSet<Nm> {
-    let mut s = BTreeSet::new();
-    for i in inits { let n = match i { Init::Rrset(n, _, _) => n, Init::Cname(n, _) => n }; for p in n.prefixes() { s.insert(p); } }
+/// names that have a node in the zone the ZoneBuilder made
+fn existing_nodes(inits: &[Init]) -> Vec<Nm> {
+    let mut s = vec![Nm(vec![])];
+    for i in inits {
+        let n = match i { Init::Rrset(n, _, _) => n, Init::Cname(n, _) => n, Init::Cut(n, ..) => n };
+        for k in 1..=n.0.len() { let p = Nm(n.0[..k].to_vec()); if !s.contains(&p) { s.push(p); } }
+    }
     s
 }
 
@@ -755,7 +804,7 @@ fn stress(out: &mut Out, millis: u64) -> (u64, u64) {
         let mut w = rt.block_on(zone.write());
         let root = rt.block_on(w.open(false)).unwrap();
         for n in &names {
-            let h = rt.block_on(root.update_child(Label::from_slice(n.0[0].as_bytes()).unwrap())).unwrap();
+            let h = rt.block_on(root.update_child(Label::from_slice(Nm::label(n.0[0]).as_bytes()).unwrap())).unwrap();
             rt.block_on(h.update_rrset(mk_rrset(T_A, g))).unwrap();
         }
         rt.block_on(root.update_rrset(mk_rrset(T_SOA, g))).unwrap();
@@ -821,14 +870,15 @@ fn main() {
         if out.wants(idx) { cell_sessions(&mut out, &mut rr, base, n); }
     }
 
-    let extra_probe: String;
     // ---- (2) zone traces
+    let p = |v: &[u32]| Nm(v.to_vec());
+    // universe: apex, wildcard, children, grandchildren (incl. wildcards below), one three-label name
+    let names: Vec<Nm> = vec![p(&[]), p(&[1]), p(&[2]), p(&[3]), p(&[4]), p(&[2, 3]), p(&[2, 1]), p(&[3, 4]), p(&[3, 4, 2]), p(&[5, 2]), p(&[4, 5])];
     let flat_names: Vec<Nm> = (0..6).map(Nm::flat).collect();
-    let x = |s: &str| Nm(s.split('.').rev().map(|l| l.to_string()).collect());
-    // corpus: the DESIGN section 7 #13 witness and friends
+    let soa = Init::Rrset(Nm(vec![]), T_SOA, 1);
+    let www = Init::Rrset(Nm::flat(2), T_A, 11);
+    let st = |e: Ev| Ev::Stale(Box::new(e));
     {
-        let soa = Init::Rrset(Nm(vec![]), T_SOA, 1);
-        let www = Init::Rrset(Nm::flat(2), T_A, 11);
         let g = Nm::flat(3);
         let traces: Vec<(Vec<Init>, Vec<Ev>)> = vec![
             // aborted update_child: n3 is NXDOMAIN before, and must be after
@@ -853,52 +903,78 @@ fn main() {
                 Ev::Acquire(3), Ev::Query(3, Nm::flat(2), T_A), Ev::Walk(3), Ev::Walk(0)]),
             // cname set and rolled back
             (vec![soa.clone(), www.clone()], vec![Ev::Acquire(0), Ev::WAcquire, Ev::WOpen, Ev::CnameAt(Nm::flat(2), 51), Ev::Query(0, Nm::flat(2), T_A), Ev::Drop, Ev::Acquire(1), Ev::Query(1, Nm::flat(2), T_A), Ev::Walk(1)]),
+            // below the first level: a new three-label name makes two empty non-terminals; aborted, then committed
+            (vec![soa.clone(), www.clone()], vec![Ev::Acquire(0), Ev::WAcquire, Ev::WOpen, Ev::Update(p(&[3, 4, 2]), T_A, 61), Ev::Query(0, p(&[3, 4]), T_A), Ev::Query(0, p(&[3]), T_A), Ev::Drop,
+                Ev::Acquire(1), Ev::Query(1, p(&[3, 4, 2]), T_A), Ev::Query(1, p(&[3, 4]), T_A), Ev::Walk(1), Ev::WAcquire, Ev::WOpen, Ev::Update(p(&[3, 4, 2]), T_A, 62), Ev::Commit,
+                Ev::Acquire(2), Ev::Query(2, p(&[3, 4, 2]), T_A), Ev::Query(2, p(&[3, 4]), T_A), Ev::Query(2, p(&[3]), T_TXT), Ev::Query(1, p(&[3, 4]), T_A), Ev::Walk(2), Ev::Walk(1)]),
+            // remove_all at an inner node reaches the grandchildren; rollback restores them
+            (vec![soa.clone(), Init::Rrset(p(&[3]), T_A, 71), Init::Rrset(p(&[3, 4]), T_A, 72), Init::Rrset(p(&[3, 4, 2]), T_TXT, 73)],
+                vec![Ev::Acquire(0), Ev::WAcquire, Ev::WOpen, Ev::RemoveAllAt(p(&[3])), Ev::Query(0, p(&[3, 4, 2]), T_TXT), Ev::Walk(0), Ev::Drop, Ev::Acquire(1), Ev::Query(1, p(&[3, 4, 2]), T_TXT), Ev::Walk(1),
+                     Ev::WAcquire, Ev::WOpen, Ev::RemoveAllAt(p(&[3])), Ev::Commit, Ev::Acquire(2), Ev::Query(2, p(&[3, 4, 2]), T_TXT), Ev::Query(2, p(&[3]), T_A), Ev::Walk(2), Ev::Walk(0)]),
+            // wildcard below the first level and the empty non-terminal that blocks it
+            (vec![soa.clone(), Init::Rrset(p(&[2, 1]), T_A, 81)], vec![Ev::Acquire(0), Ev::Query(0, p(&[2, 3]), T_A), Ev::Query(0, p(&[2, 3, 4]), T_A), Ev::WAcquire, Ev::WOpen, Ev::Update(p(&[2, 3, 4]), T_A, 82),
+                Ev::Query(0, p(&[2, 3]), T_A), Ev::Commit, Ev::Acquire(1), Ev::Query(1, p(&[2, 3]), T_A), Ev::Query(1, p(&[2, 5]), T_A), Ev::Query(0, p(&[2, 3]), T_A), Ev::Walk(1)]),
+            // zone cut: referral at and below, DS at the cut, walk ends the descent; made and unmade by writers
+            (vec![soa.clone(), www.clone(), Init::Cut(p(&[3]), 91, Some(92), Some(93)), Init::Rrset(p(&[3, 4]), T_A, 94)],
+                vec![Ev::Acquire(0), Ev::Query(0, p(&[3]), T_A), Ev::Query(0, p(&[3]), T_DS), Ev::Query(0, p(&[3, 4]), T_A), Ev::Query(0, p(&[3, 5, 2]), T_A), Ev::Walk(0),
+                     Ev::WAcquire, Ev::WOpen, Ev::Regular(p(&[3])), Ev::CutAt(p(&[2]), 95, None, None), Ev::Query(0, p(&[3, 4]), T_A), Ev::Commit, Ev::Acquire(1),
+                     Ev::Query(1, p(&[3, 4]), T_A), Ev::Query(1, p(&[2]), T_A), Ev::Query(1, p(&[2]), T_DS), Ev::Query(0, p(&[2]), T_A), Ev::Walk(1), Ev::Walk(0),
+                     Ev::WOpen, Ev::CutAt(p(&[3]), 96, None, Some(97)), Ev::Drop, Ev::Acquire(2), Ev::Query(2, p(&[3, 4]), T_A), Ev::Walk(2)]),
+            // ANY
+            (vec![soa.clone(), www.clone(), Init::Rrset(Nm::flat(2), T_TXT, 12)], vec![Ev::Acquire(0), Ev::Query(0, Nm::flat(2), T_ANY), Ev::Query(0, Nm::flat(3), T_ANY), Ev::Query(0, Nm::flat(0), T_ANY),
+                Ev::WAcquire, Ev::WOpen, Ev::Remove(Nm::flat(2), T_A), Ev::Remove(Nm::flat(2), T_TXT), Ev::Update(Nm::flat(3), T_AAAA, 13), Ev::Query(0, Nm::flat(2), T_ANY), Ev::Commit, Ev::Acquire(1),
+                Ev::Query(1, Nm::flat(2), T_ANY), Ev::Query(1, Nm::flat(3), T_ANY), Ev::Query(0, Nm::flat(3), T_ANY)]),
         ];
-        for (i, e) in &traces { idx += 1; if out.wants(idx) { run_trace(&mut out, i, e, flat_names.clone(), true, "zt_corpus"); } }
+        for (i, e) in &traces { idx += 1; if out.wants(idx) { run_trace(&mut out, i, e, names.clone(), "zt_corpus"); } }
     }
-    let n_tr = if a.thorough { 30_000 } else { 900 } * a.scale;
+    // flat zones (apex, wildcard, four children)
+    let n_tr = if a.thorough { 15_000 } else { 450 } * a.scale;
     for k in 0..n_tr {
         let inits = gen_inits(&mut r, &flat_names[..5], 4);
-        let ex = existing_nodes(&inits);
-        // two thirds of the traces only touch names that exist (no node creation)
+        // two thirds of the traces only touch names that have a node already
         let create_ok = k % 3 == 0;
-        let evs = gen_trace(&mut r, &flat_names, if a.thorough { 40 } else { 30 }, create_ok, &ex);
+        let targets = if create_ok { flat_names.clone() } else { existing_nodes(&inits) };
+        let evs = gen_trace(&mut r, &flat_names, &targets, if a.thorough { 40 } else { 30 }, false);
         idx += 1;
-        if out.wants(idx) { run_trace(&mut out, &inits, &evs, flat_names.clone(), true, if create_ok { "zt_flat_create" } else { "zt_flat" }); }
+        if out.wants(idx) { run_trace(&mut out, &inits, &evs, flat_names.clone(), if create_ok { "zt_flat_create" } else { "zt_flat" }); }
     }
-    // two-level names: oracle only
-    let deep: Vec<Nm> = vec![Nm(vec![]), x("a"), x("b"), x("*"), x("x.a"), x("*.a"), x("y.b"), x("x.y.b"), x("c")];
-    let n_deep = if a.thorough { 10_000 } else { 250 } * a.scale;
+    // trees: names up to three labels below the apex
+    let n_deep = if a.thorough { 20_000 } else { 600 } * a.scale;
     for k in 0..n_deep {
-        let inits = gen_inits(&mut r, &deep[..7], 3);
-        let ex = existing_nodes(&inits);
-        let create_ok = k % 3 == 0;
-        let evs = gen_trace(&mut r, &deep, 30, create_ok, &ex);
+        let inits = gen_inits(&mut r, &names[..9], 3);
+        let create_ok = k % 3 != 1;
+        let targets = if create_ok { names.clone() } else { existing_nodes(&inits) };
+        let evs = gen_trace(&mut r, &names, &targets, if a.thorough { 40 } else { 30 }, false);
         idx += 1;
-        if out.wants(idx) { run_trace(&mut out, &inits, &evs, deep.clone(), false, if create_ok { "zt_deep_create" } else { "zt_deep" }); }
+        if out.wants(idx) { run_trace(&mut out, &inits, &evs, names.clone(), if create_ok { "zt_tree_create" } else { "zt_tree" }); }
     }
-
-    // ---- informational probe (not an oracle verdict): a node handle obtained
-    // before commit() and used after it keeps the committed version number
+    // write handles kept beyond the commit/drop that ended their session
     {
-        let rt = tokio::runtime::Builder::new_current_thread().enable_all().build().unwrap();
-        let mut b = ZoneBuilder::new(apex(), Class::IN);
-        b.insert_rrset(&Nm::flat(2).abs(), mk_rrset(T_A, 1)).unwrap();
-        let zone = b.build();
-        let mut w = rt.block_on(zone.write());
-        let root = rt.block_on(w.open(false)).unwrap();
-        let h = rt.block_on(root.update_child(Label::from_slice(b"n2").unwrap())).unwrap();
-        rt.block_on(h.update_rrset(mk_rrset(T_A, 2))).unwrap();
-        rt.block_on(w.commit(false)).unwrap();
-        let rd = zone.read();
-        let before = observe(rd.as_ref(), &Nm::flat(2), T_A);
-        rt.block_on(h.update_rrset(mk_rrset(T_A, 3))).unwrap();
-        let after = observe(rd.as_ref(), &Nm::flat(2), T_A);
-        extra_probe = format!("\"reader acquired after commit: {} then {} after a write through the pre-commit node handle\"", before, after);
+        let traces: Vec<(Vec<Init>, Vec<Ev>)> = vec![
+            // after commit the handle writes into the published version
+            (vec![soa.clone(), www.clone()], vec![Ev::WAcquire, Ev::WOpen, Ev::Update(Nm::flat(2), T_A, 21), Ev::Commit, Ev::Acquire(1),
+                st(Ev::Update(Nm::flat(2), T_A, 22)), Ev::Query(1, Nm::flat(2), T_A), Ev::Acquire(2), Ev::Query(2, Nm::flat(2), T_A)]),
+            // after drop it writes without the lock, at the version number of the next writer
+            (vec![soa.clone(), www.clone()], vec![Ev::WAcquire, Ev::WOpen, Ev::Update(Nm::flat(2), T_A, 21), Ev::Drop, st(Ev::Update(Nm::flat(2), T_TXT, 31)),
+                Ev::WAcquire, Ev::WOpen, Ev::Update(Nm::flat(2), T_A, 22), Ev::Commit, Ev::Acquire(1), Ev::Query(1, Nm::flat(2), T_TXT), Ev::Walk(1)]),
+            // an older handle writes into the middle of history
+            (vec![soa.clone(), www.clone()], vec![Ev::Acquire(0), Ev::WAcquire, Ev::WOpen, Ev::Update(Nm::flat(2), T_A, 21), Ev::Commit, Ev::Commit,
+                Ev::Drop, Ev::Acquire(1), st(Ev::Remove(Nm::flat(2), T_A)), Ev::Query(1, Nm::flat(2), T_A), Ev::Walk(1), Ev::Query(0, Nm::flat(2), T_A),
+                st(Ev::Update(Nm::flat(2), T_A, 23)), Ev::Query(1, Nm::flat(2), T_A), Ev::Query(0, Nm::flat(2), T_A)]),
+        ];
+        for (i, e) in &traces { idx += 1; if out.wants(idx) { run_trace(&mut out, i, e, flat_names.clone(), "zt_stale_corpus"); } }
+    }
+    let n_stale = if a.thorough { 6_000 } else { 250 } * a.scale;
+    for k in 0..n_stale {
+        let (u, nin) = if k % 2 == 0 { (&flat_names, 5) } else { (&names, 9) };
+        let inits = gen_inits(&mut r, &u[..nin], 4);
+        let evs = gen_trace(&mut r, u, u, 30, true);
+        idx += 1;
+        if out.wants(idx) { run_trace(&mut out, &inits, &evs, u.clone(), "zt_stale"); }
     }
 
     // ---- (3) supporting only: real threads
-    let mut extra: Vec<(&str, String)> = vec![("probe_stale_node_handle_after_commit", extra_probe)];
+    let mut extra: Vec<(&str, String)> = vec![];
     if a.thorough && a.only.is_none() {
         out.begin("stress");
         let (reads, commits) = stress(&mut out, 1000);
